@@ -518,6 +518,9 @@ func runHistory(p *SPlan, noUp bool, o *sim.Outcome, sigParts *[]string) []obsLi
 				o.Probe("hardcert_refused")
 			}
 		}
+		if st.Op == "forward" && res.err != nil {
+			o.Fail("C10.forward", "forward_refused", i, "%s: a raw request of %d bytes was not relayed: %v", tag, len(rawBody(st.Arg))+1, res.err)
+		}
 		if st.Op == "ext" && want == shimmodel.OK {
 			if res.err != nil || string(res.bytes) != "echo:"+st.Arg {
 				o.Fail("C10.forward", "extension", i, "%s: extension answered %q err=%v, want the upstream's echo", tag, res.bytes, res.err)
